@@ -27,6 +27,13 @@ var (
 	ErrInvalid      = errors.New("invalid")
 )
 
+var (
+	// ErrNotInteger is returned when a stored value is not an integer.
+	ErrNotInteger = errors.New("value is not an integer or out of range")
+	// ErrOverflow is returned when an increment or decrement would overflow.
+	ErrOverflow = errors.New("increment or decrement would overflow")
+)
+
 // ErrEmptyCommand is returned when a request array has no command name.
 var ErrEmptyCommand = errors.New("empty command")
 
